@@ -1,6 +1,7 @@
 #!/usr/bin/env python3
 """Prints the markdown table of DESIGN.md §14 from /verif/seeded/*/meta.json."""
 import json, glob, os
+notes = json.load(open('/verif/seeded/NOTES.json')) if os.path.exists('/verif/seeded/NOTES.json') else {}
 rows = []
 for f in sorted(glob.glob('/verif/seeded/*/meta.json')):
     m = json.load(open(f))
@@ -11,7 +12,12 @@ for f in sorted(glob.glob('/verif/seeded/*/meta.json')):
     own = m['property'] in m.get('caught_by', [])
     others = [c for c in m.get('caught_by', []) if c != m['property']]
     status = 'confirmed' if m.get('confirmed') else 'NOT CONFIRMED'
-    rows.append(f"| {name} | {what} | {needs} | {status}; {m.get('tests_passed_with_change')} tests pass | {'**yes**' if own else '**no**'} | {', '.join(others) or '-'} |")
+    owncol = '**yes**' if own else ('no - see note' if name in notes else '**no**')
+    rows.append(f"| {name} | {what} | {needs} | {status}; {m.get('tests_passed_with_change')} tests pass | {owncol} | {', '.join(others) or '-'} |")
 print("| seed | change | needs in order to manifest | confirmation | caught by its own check | also caught by |")
 print("|---|---|---|---|---|---|")
 print("\n".join(rows))
+if notes:
+    print()
+    for k, v in notes.items():
+        print(f"* **{k}**: {v}")
